@@ -337,6 +337,8 @@ pub fn base_model(variant: usize) -> Model {
     let k = Ex::Lit(vec![("2001:db8:f00::/48".into(), Op::Range(49, 50)), ("192.0.2.0/25".into(), Op::None)]);
     _ = m.db.filter_sets.insert("FLTR-H".into(), vec![format!("@nochanged {}", k.render())]);
     _ = m.filter_exprs.insert("FLTR-H".into(), k);
+    // registry data that can never be evaluated (never used as an atom: there is nothing to compare with)
+    _ = m.db.filter_sets.insert("FLTR-LOOP".into(), vec!["FLTR-LOOP".into()]);
     m
 }
 
@@ -861,7 +863,7 @@ pub fn run_c17(report: &mut Report, budget: Duration) {
     // given prefix, so they mean the same thing at every position and on the fresh reference connection.
     // (Catches state that builds up over several evaluations - budgets, caches, counters - and state
     // that is only reset on the success path.)
-    let failing: Vec<String> = ["(FLTR-F AND AS-GONE)", "(AS-GONE AND FLTR-F)", "(RS-X AND AS-GONE)", "((AS-A AND AS-B) AND AS-GONE)", "(AS65001 AND AS-GONE)", "(FLTR-F AND (FLTR-F AND AS-GONE))"].iter().map(|s| (*s).to_string()).collect();
+    let failing: Vec<String> = ["(FLTR-F AND AS-GONE)", "(AS-GONE AND FLTR-F)", "(RS-X AND AS-GONE)", "((AS-A AND AS-B) AND AS-GONE)", "(AS65001 AND AS-GONE)", "(FLTR-F AND (FLTR-F AND AS-GONE))", "FLTR-LOOP", "(AS-A OR FLTR-LOOP)"].iter().map(|s| (*s).to_string()).collect();
     let xs: Vec<String> = alpha.iter().cloned().chain(failing).collect();
     let ks: Vec<usize> = if thorough { vec![1, 2, 3, 5, 9, 17, 33] } else { vec![2, 9] };
     let rep_irrd = Irrd::start(model.db.clone());
